@@ -66,6 +66,7 @@ type csDirector struct {
 	touched map[string]bool
 	feeCfg string
 	next   time.Time // block time of the block being filled
+	staged map[int]bool // scripted steps already sent
 }
 
 var csLookalikes = []string{"junk-1", "junk-2", "junk-3", "lpt-01", "lpt-02", "lpt-03"}
@@ -84,7 +85,7 @@ func runCoinswap(run *ev.Run, c int, mode string) {
 		bal = bal.Add(sdk.NewCoin(d, toInt(pow2(100))))
 	}
 	r := rig.New(rig.Options{Seed: fmt.Sprintf("cs-%d-%d", run.Seed, c), NumAccounts: 6, Balances: bal, InflationOff: true})
-	d := &csDirector{run: run, r: r, mode: mode, denoms: denoms, std: rig.BondDenom, feeCfg: "default"}
+	d := &csDirector{run: run, r: r, mode: mode, denoms: denoms, std: rig.BondDenom, feeCfg: "default", staged: map[int]bool{}}
 	// one transaction in twenty is rolled back by a second message that cannot succeed, after its coinswap message ran
 	r.Poison = func() bool { return rng.Intn(20) == 0 }
 	r.Snapshot = func(ctx sdk.Context) any {
@@ -179,6 +180,25 @@ func refInput(paid, x, y, delta *big.Int) *big.Int {
 	return num.Quo(num, den)
 }
 
+// csEqualityInput returns an input p with (x*1e18 + δ*p) dividing δ*p*y, if a small multiple of x gives one: with
+// δ*p = k*x*1e18 the quote is k*y/(k+1).
+func csEqualityInput(x, y, delta *big.Int) *big.Int {
+	if x.Sign() <= 0 || y.Sign() <= 0 || delta.Sign() <= 0 {
+		return nil
+	}
+	for k := int64(1); k <= 12; k++ {
+		if new(big.Int).Mod(y, big.NewInt(k+1)).Sign() != 0 {
+			continue
+		}
+		num := new(big.Int).Mul(x, big.NewInt(k))
+		num.Mul(num, e18)
+		if new(big.Int).Mod(num, delta).Sign() == 0 {
+			return num.Quo(num, delta)
+		}
+	}
+	return nil
+}
+
 // refOutput: smallest paid with (x*1e18 + δ*paid)(y - recv) >= x*y*1e18.
 func refOutput(recv, x, y, delta *big.Int) *big.Int {
 	num := new(big.Int).Mul(x, recv)
@@ -241,6 +261,21 @@ func (d *csDirector) intent(maxBits, blockNo int) (rig.Tx, bool) {
 		// pool-creation fee) exists and has been sent coins of its own
 		last := d.denoms[len(d.denoms)-1]
 		switch {
+		case blockNo == 34 && !d.staged[34]:
+			// a transaction opens the late pool, trades against it and is then rolled back by its last message ...
+			d.staged[34] = true
+			tag := &csTag{Kind: "rolled-back-pool-opening"}
+			dl := d.next.Add(time.Hour).Unix()
+			return r.Mk(a, tag,
+				&cstypes.MsgAddLiquidity{MaxToken: coin(last, big.NewInt(1_000_000)), ExactStandardAmt: toInt(big.NewInt(900_000)), MinLiquidity: sdkmath.OneInt(), Deadline: dl, Sender: a.Addr.String()},
+				&cstypes.MsgSwapOrder{Input: cstypes.Input{Address: a.Addr.String(), Coin: coin(d.std, big.NewInt(5_000))}, Output: cstypes.Output{Address: a.Addr.String(), Coin: coin(last, big.NewInt(1))}, Deadline: dl, IsBuyOrder: false},
+				banktypes.NewMsgSend(a.Addr, a.Addr, sdk.NewCoins(coin(d.std, pow2(250))))), true
+		case blockNo == 36 && !d.staged[36]:
+			// ... then a pool for another coin is opened for real (it takes the sequence number the rolled-back one had),
+			// and only then the late pool
+			d.staged[36] = true
+			tag := &csTag{Kind: "add", Note: "pool-for-a-look-alike-coin"}
+			return r.Mk(a, tag, &cstypes.MsgAddLiquidity{MaxToken: coin("junk-1", big.NewInt(2_000_000)), ExactStandardAmt: toInt(big.NewInt(1_500_000)), MinLiquidity: sdkmath.OneInt(), Deadline: d.next.Add(time.Hour).Unix(), Sender: a.Addr.String()}), true
 		case blockNo < 40 && denom == last:
 			denom = d.denoms[rng.Intn(len(d.denoms)-1)]
 		case blockNo >= 30 && blockNo < 40 && rng.Intn(6) == 0 && len(s.Pools) > 0:
@@ -408,6 +443,15 @@ func (d *csDirector) intent(maxBits, blockNo int) (rig.Tx, bool) {
 				inAmt = randFrac(rng, new(big.Int).Mul(l1.x, big.NewInt(int64(1+rng.Intn(3)))))
 			} else {
 				inAmt = randMag(rng, maxBits)
+			}
+			if ok && rng.Intn(4) == 0 {
+				// an input for which the constant-product rule is met with equality (the quotient is exact): the largest
+				// admissible output is then that quotient itself, not one below it
+				if eq := csEqualityInput(l1.x, l1.y, delta); eq != nil {
+					inAmt = eq
+					tag.Note += "/rule-met-with-equality"
+					d.run.Count("sell-whose-quote-meets-the-rule-with-equality", 1)
+				}
 			}
 			exp := new(big.Int)
 			if ok {
